@@ -340,13 +340,181 @@ fn subs_for<B: Backend>(out: &mut Vec<SubCheck>) {
     }
 }
 
+
+// ---------------------------------------------------------------------------
+// structured footers: the footer bytes that are authenticated must be the bytes RECEIVED,
+// not a re-encoding of the decoded footer value.  Footer types whose decoding is not
+// injective (JSON, or the harness's `Lossy`) admit different byte strings for one value.
+
+/// decode folds ASCII case and drops trailing spaces; encode writes the stored bytes
+#[derive(Clone, Debug, PartialEq)]
+pub struct Lossy(pub Vec<u8>);
+
+impl paseto_core::encodings::Footer for Lossy {
+    fn encode(&self, mut w: impl paseto_core::encodings::WriteBytes) -> Result<(), Box<dyn std::error::Error + Send + Sync>> {
+        w.write(&self.0);
+        Ok(())
+    }
+    fn decode(f: &[u8]) -> Result<Self, Box<dyn std::error::Error + Send + Sync>> {
+        let mut v = f.to_ascii_lowercase();
+        while v.last() == Some(&b' ') {
+            v.pop();
+        }
+        Ok(Lossy(v))
+    }
+}
+
+#[derive(Clone, Debug, Serialize, Deserialize)]
+pub struct TypedFooterCase {
+    pub public: bool,
+    pub key: KeySeed,
+    pub msg: BytesSpec,
+    /// 0 Lossy, 1 Json<Value>
+    pub footer_ty: u8,
+    pub kid: String,
+    pub variant: u8,
+}
+
+fn typed_variants(c: &TypedFooterCase) -> (Vec<u8>, Vec<(String, Vec<u8>)>) {
+    if c.footer_ty == 0 {
+        let canon = format!("kid={}", c.kid.to_ascii_lowercase()).into_bytes();
+        let mut vs = vec![("trailing-space".to_string(), [&canon[..], b" "].concat()), ("trailing-spaces".to_string(), [&canon[..], b"   "].concat())];
+        let mut up = canon.clone();
+        up[0] = b'K';
+        vs.push(("case-changed".to_string(), up));
+        (canon, vs)
+    } else {
+        let kid = serde_json::to_string(&c.kid).unwrap();
+        let canon = format!("{{\"kid\":{kid}}}").into_bytes();
+        let vs = vec![
+            ("whitespace".to_string(), format!("{{\"kid\": {kid}}}").into_bytes()),
+            ("leading-space".to_string(), format!(" {{\"kid\":{kid}}}").into_bytes()),
+            ("trailing-newline".to_string(), format!("{{\"kid\":{kid}}}\n").into_bytes()),
+            ("shadowed-duplicate".to_string(), format!("{{\"kid\":\"attacker\",\"kid\":{kid}}}").into_bytes()),
+            ("escaped-key".to_string(), format!("{{\"\\u006bid\":{kid}}}").into_bytes()),
+        ];
+        (canon, vs)
+    }
+}
+
+fn typed_footer_run<B: Backend, P: Purpose, F: paseto_core::encodings::Footer + Clone + PartialEq>(
+    acc: &mut Acc,
+    c: &TypedFooterCase,
+    sealing: &Key<V<B>, P::SealingKey>,
+    unsealing: &Key<V<B>, P>,
+    value: F,
+    canon: &[u8],
+    variants: &[(String, Vec<u8>)],
+) -> R
+where
+    V<B>: SealingVersion<P>,
+{
+    let name = B::NAME;
+    let purpose = if c.public { "public" } else { "local" };
+    let m = c.msg.bytes();
+    let sealed = UnsealedToken::<V<B>, P, Raw>::new(Raw(m.clone()))
+        .with_footer(value.clone())
+        .seal(sealing, &[])
+        .map_err(|e| Fail::new(format!("C02/{name}/{purpose}/typed-footer/seal-failed"), format!("{e}")))?;
+    let s = sealed.to_string();
+    let h = format!("{}.{purpose}.", B::VER.v());
+    let (payload, fbytes) = model::disassemble(&h, &s).map_err(|e| Fail::new("HARNESS/c02-typed", e))?;
+    crate::ensure!(fbytes == canon, "HARNESS/c02-typed-canon", "footer encodes as {:?}", String::from_utf8_lossy(&fbytes));
+    // control
+    let ctl: SealedToken<V<B>, P, Raw, F> = s.parse().map_err(|e| Fail::new(format!("C02/{name}/{purpose}/typed-footer/control-parse"), format!("{e}")))?;
+    let u = ctl.unseal(unsealing, &[], &NoValidation::dangerous_no_validation()).map_err(|e| Fail::new(format!("C02/{name}/{purpose}/typed-footer/control-rejected"), format!("{e}")))?;
+    crate::ensure!(u.claims.0 == m && u.footer == value, format!("C02/{name}/{purpose}/typed-footer/control-differs"), "control differs");
+    acc.eval();
+    for (vi, (vname, bytes)) in variants.iter().enumerate() {
+        if vi as u8 != c.variant % variants.len() as u8 && c.variant != 255 {
+            continue;
+        }
+        let t = model::assemble(&h, &payload, bytes);
+        let parsed: SealedToken<V<B>, P, Raw, F> = match t.parse() {
+            Ok(p) => p,
+            Err(_) => {
+                acc.class("typed-footer:variant-does-not-decode");
+                continue;
+            }
+        };
+        if *parsed.unverified_footer() != value {
+            acc.class("typed-footer:variant-decodes-differently");
+        } else {
+            acc.class("typed-footer:same-value-different-bytes");
+        }
+        acc.eval();
+        acc.nt(hash_of(&(name, purpose, &c.key, &c.kid, c.footer_ty, vname)));
+        if parsed.unseal(unsealing, &[], &NoValidation::dangerous_no_validation()).is_ok() {
+            return Err(Fail::new(
+                format!("C02/{name}/{purpose}/typed-footer-{vname}/accepted"),
+                format!("token accepted although its footer bytes were changed from {:?} to {:?} (same decoded footer value)", String::from_utf8_lossy(canon), String::from_utf8_lossy(bytes)),
+            ));
+        }
+    }
+    Ok(())
+}
+
+fn typed_footer_case<B: Backend>(c: &TypedFooterCase, acc: &mut Acc) -> R {
+    rng::reseed_case(hash_of(&(&c.key, &c.kid)));
+    let (canon, variants) = typed_variants(c);
+    macro_rules! go {
+        ($P:ty, $sk:expr, $uk:expr) => {
+            if c.footer_ty == 0 {
+                typed_footer_run::<B, $P, Lossy>(acc, c, &$sk, &$uk, Lossy(canon.clone()), &canon, &variants)
+            } else {
+                let v: serde_json::Value = serde_json::from_slice(&canon).map_err(|e| Fail::new("HARNESS/c02-json", format!("{e}")))?;
+                typed_footer_run::<B, $P, JsonFooter>(acc, c, &$sk, &$uk, JsonFooter(v), &canon, &variants)
+            }
+        };
+    }
+    if c.public {
+        let sk = secret_key::<B>(&c.key);
+        let pk = sk.public_key();
+        go!(Public, sk, pk)
+    } else {
+        let k = local_key::<B>(&c.key);
+        go!(Local, k, k)
+    }
+}
+
+/// paseto_json::Json<Value> with the PartialEq the generic runner needs
+#[derive(Clone, Debug, PartialEq)]
+pub struct JsonFooter(pub serde_json::Value);
+impl paseto_core::encodings::Footer for JsonFooter {
+    fn encode(&self, w: impl paseto_core::encodings::WriteBytes) -> Result<(), Box<dyn std::error::Error + Send + Sync>> {
+        paseto_core::encodings::Footer::encode(&paseto_json::Json(self.0.clone()), w)
+    }
+    fn decode(f: &[u8]) -> Result<Self, Box<dyn std::error::Error + Send + Sync>> {
+        <paseto_json::Json<serde_json::Value> as paseto_core::encodings::Footer>::decode(f).map(|j| JsonFooter(j.0))
+    }
+}
+
+fn typed_subs_for<B: Backend>(out: &mut Vec<SubCheck>) {
+    let cases = match B::NAME {
+        "paseto-v1" => (40, 400),
+        "paseto-v3" => (60, 800),
+        _ => (200, 4000),
+    };
+    out.push(SubCheck::prop(
+        format!("c02.typed-footer/{}", B::NAME),
+        5,
+        cases,
+        |_t| {
+            (any::<bool>(), gens::key_seed(), gens::small_payload(), 0u8..2, "[a-z0-9-]{1,12}", prop_oneof![4 => any::<u8>(), 1 => Just(255u8)])
+                .prop_map(|(public, key, msg, footer_ty, kid, variant)| TypedFooterCase { public, key, msg, footer_ty, kid, variant })
+        },
+        typed_footer_case::<B>,
+    ));
+}
+
 pub fn def() -> PropertyDef {
     let mut subs = Vec::new();
     crate::for_backends!(B => subs_for::<B>(&mut subs));
+    crate::for_backends!(B => typed_subs_for::<B>(&mut subs));
     PropertyDef {
         id: "C02",
         level: "fault_enumeration",
-        rule: "for each generated sealed token (proptest-sampled key, message, footer, assertion): the full mutation catalogue - every single-bit flip of payload, footer and assertion (exhaustive for tokens up to 176 B quick / 2 KiB thorough, edges + sample beyond), every truncation length front and back, 1-3 byte extensions at each field boundary, 1-3 byte shifts across body|footer|assertion, footer/assertion add-remove-replace-swap, other key, one-bit key neighbours, negated P-384 point, other purpose header, other version header with the same key bytes, v1/v2 sealing with an assertion; oracle: every mutant rejected, unmutated control accepted with the original claims. Non-trivial iff the mutant is long enough to reach the cryptographic check; distinct by (token, class, position)",
+        rule: "for each generated sealed token (proptest-sampled key, message, footer, assertion): the full mutation catalogue - every single-bit flip of payload, footer and assertion (exhaustive for tokens up to 176 B quick / 2 KiB thorough, edges + sample beyond), every truncation length front and back, 1-3 byte extensions at each field boundary, 1-3 byte shifts across body|footer|assertion, footer/assertion add-remove-replace-swap, other key, one-bit key neighbours, negated P-384 point, other purpose header, other version header with the same key bytes, v1/v2 sealing with an assertion; structured footers (JSON and a case/space-insensitive footer type): every different byte string that decodes to the SAME footer value (whitespace, trailing newline, shadowed duplicate key, escaped key, changed case) must be rejected too; oracle: every mutant rejected, unmutated control accepted with the original claims. Non-trivial iff the mutant is long enough to reach the cryptographic check; distinct by (token, class, position)",
         assumptions: vec![
             "mutants are offered through FromStr + unseal (the public path); a mutant equal to the original tuple is dropped by byte comparison",
             "ECDSA (r, n-s) malleability is not a single-bit neighbour and is not demanded",
